@@ -22,10 +22,12 @@ from . import c12_sweep as SW
 from . import c12_vec as VEC
 from . import c12_link as LNK
 from . import c12_copy as CPY
+from . import c12_prop as PRP
 from ..extract import writeorder as _wo
 from ..extract import mutorder as _mo
 from ..extract import linkorder as _lo
 from ..extract import copyorder as _co
+from ..extract import propcreate as _pc
 from ..extract import frameshape as _fs         # C16's translator of data_frame.py: frame_write_refused_unchanged rests on it
 from ..extract import datasetshape as _ds       # C01's compiler of data_set.py: append_refused_unchanged rests on it
 
@@ -72,6 +74,10 @@ THEOREMS = [
     "Nix.C12.copy_functions_safe",
     "Nix.C12.copy_refused_unchanged",
     "Nix.C12.late_name_check_counterexample",
+    "Nix.C12.create_property_pre_safe",
+    "Nix.C12.create_property_refused_unchanged",
+    "Nix.C12.create_property_accepted",
+    "Nix.C12.cleanup_needs_duplicate_test",
     "Nix.C12.append_refused_unchanged",
     "Nix.C12.data_step_refused_unchanged",
     "Nix.C12.data_history_skips_refused",
@@ -105,6 +111,9 @@ ASSUMPTIONS = [
     "storable as text; flags: bool() defined, value; source of the expected class); h5py's object copy succeeds when the "
     "name is free in the destination; copying the properties into the freshly copied section (children=False) is not "
     "refused; the container group opened with create=True stays invisible to readers while it is empty",
+    "PropCreate: name and values enter as classes (name usable as key / taken / accepted by check_entity_name; values "
+    "accepted by the typing block / element type known / storable - harness table VALUES of c12_prop.py); the theorem "
+    "assumes the duplicate test sees the section as it is (Consistent)",
 ]
 TRUSTED_EXTRA = ["harness/lib/storeimpl.py + storegen.py (path addressing by iteration, HDF5-level dump with h5py)",
                  "harness/props/c12.py FAULTS table (concrete invalid argument -> stage and error class)",
@@ -159,7 +168,11 @@ MANIFEST = {
                   "the copying functions (H5Group.copy inlined into create_data_array / data_frame / tag / multi_tag / block / "
                   "property with copy_from and the two copy_section, Generated/CopyOrder.lean) are shown to be such a system "
                   "(copy_sound) whose generated lists obey it (copy_functions_safe), hence copy_refused_unchanged; "
-                  "late_name_check_counterexample proves the order before the repairs wrong. "
+                  "late_name_check_counterexample proves the order before the repairs wrong; Section.create_property with "
+                  "Property.create_new inlined is a function with a protected section (Generated/PropCreateOrder.lean: pre / try "
+                  "body / except handler): create_property_refused_unchanged covers every refusal incl. the values refused "
+                  "after the property was written (the handler's delete-by-name restores the section because the duplicate "
+                  "test came first - cleanup_needs_duplicate_test shows it would not otherwise). "
                   "(6) DataSet.append / write_direct / __setitem__ / data_extent: append_refused_unchanged and "
                   "data_step_refused_unchanged restate, on the definitions C01 compiles from data_set.py, that a raised step "
                   "leaves extent, elements, element type and filter flag as they were (the roll-back of append); "
@@ -177,7 +190,7 @@ MANIFEST = {
                   "verified; the event classification of mutorder.py is by method name and the 15 mutators listed in "
                   "Props/C12.lean `writesFirst` are exempt from the order theorem (covered by the writer model or the oracle "
                   "only). Partial: refusals of dimension setters (labels, unit, label, "
-                  "offset, interval), Property attribute setters, Section item assignment "
+                  "offset, interval), Property attribute setters "
                   "and File-level deletes have no theorem: they are checked by the oracle (catalogue + spelling "
                   "sweep) on the implementation only. Tag.units / MultiTag.units / SetDimension.labels: only their common "
                   "write_data call with a text dtype has a theorem (write_data_text_refused_unchanged), their own validation "
@@ -198,6 +211,7 @@ def extract(repo):
     files.update(_mo.extract(repo))
     files.update(_lo.extract(repo))
     files.update(_co.extract(repo))
+    files.update(_pc.extract(repo))
     files.update(_ds.extract(repo))
     files.update(_fs.extract(repo))
     return files
@@ -850,8 +864,34 @@ def correspondence(ctx):
     finally:
         cscene.close()
     total += n_copy
+    # Section.create_property / Section[key] = values: model (function with a protected section) vs. implementation
+    n_prop = ctx.budget(800, 8000)
+    prng = random.Random("%s/prop/%d" % (PROP, ctx.seed))
+    pscene = PRP.Scene(ctx.tmpfile("c12-prop.nix"))
+    pdist = {"refused": 0, "accepted": 0}
+    try:
+        pcases = []
+        while len(pcases) < n_prop:
+            pc = PRP.gen_case(prng)
+            if pscene.applicable(pc):
+                pcases.append(pc)
+        pmodel = core.run_driver(PROP, [["propcreate_run", pscene.abstract(c)] for c in pcases])
+        with ticking_clock():
+            for c, m in zip(pcases, pmodel):
+                i = pscene.run(c)
+                pdist["refused" if i["refused"] else "accepted"] += 1
+                seen.add(core.canon(["prop", c]))
+                if PRP.canon_model(m) != PRP.canon_impl(i):
+                    disagreements.append(Disagreement({"property_case": c, "abstraction": pscene.abstract(c)}, PRP.canon_model(m),
+                                                      dict(PRP.canon_impl(i), error=i["error"])))
+    finally:
+        pscene.close()
+    total += n_prop
     return {"evaluations": total, "distinct_nontrivial": len(seen),
-            "rule": "(00) copies: create_data_array / create_tag / create_block / create_property with copy_from, "
+            "rule": "(000) create_property / Section[key] = values with 13 names x 22 values (classes of the values: harness "
+                    "table VALUES) - refused or accepted, properties of the section read with h5py, the existing property "
+                    "untouched, name / id / stamps of a new one - against Pure/PropCreate.lean run on "
+                    "Generated/PropCreateOrder.lean. (00) copies: create_data_array / create_tag / create_block / create_property with copy_from, "
                     "File.copy_section, Section.copy_section with the name as one of 19 values (text, empty, None, taken, "
                     "numpy.str_, str subclass, text with NUL / lone surrogate, bytes, numbers, lists, arrays, objects), the "
                     "keep-id and children flags as one of 12 values (bool, int, None, text, NumPy bool, arrays with 0 / 1 / 2 "
@@ -884,7 +924,7 @@ def correspondence(ctx):
                     "op (canonical JSON) whose result is an error or a non-empty value",
             "samples": samples,
             "distribution": {"ops": dist, "impl_errors": errs, "injected": inj, "refused_mutating_calls": refused_mut,
-                             "vector_cases": vdist, "link_cases": ldist, "copy_cases": cdist},
+                             "vector_cases": vdist, "link_cases": ldist, "copy_cases": cdist, "property_cases": pdist},
             "disagreements": disagreements, "exhaustive": False}
 
 
